@@ -509,6 +509,7 @@ func (e *Enc) run() {
 				e.anchorMissing = append(e.anchorMissing, e.fnDisplayName()+": site "+e.siteLabel(st)+" matched nothing")
 			}
 		}
+		e.buildReplaySpec()
 	}
 }
 
